@@ -35,11 +35,15 @@ static SUIRON_STOP_QUERY: AtomicU64 = AtomicU64::new(0);
 /// let timer = start_query_timer(300);
 /// ```
 pub fn start_query_timer(milliseconds: u64) -> ThreadTimer {
+    #[cfg(suiron_verif)]
+    crate::verif_hooks::emit(crate::verif_hooks::Event::TimerStart);
     // A new epoch: SUIRON_STOP_QUERY becomes false.
     let epoch = QUERY_EPOCH.fetch_add(1, Ordering::SeqCst) + 1;
     let timer = ThreadTimer::new();
     timer.start(Duration::from_millis(milliseconds),
                 move || {
+                    #[cfg(suiron_verif)]
+                    crate::verif_hooks::emit(crate::verif_hooks::Event::TimerFire);
                     SUIRON_STOP_QUERY.fetch_max(epoch, Ordering::SeqCst);
                 }).unwrap();
     return timer;
@@ -71,6 +75,8 @@ pub fn cancel_timer(timer: ThreadTimer) {
 /// In order to keep the substitution set small, the LOGIC_VAR_ID is
 /// reset to 0 at the start of every query.
 pub fn start_query() {
+    #[cfg(suiron_verif)]
+    crate::verif_hooks::emit(crate::verif_hooks::Event::StartQuery);
     QUERY_EPOCH.fetch_add(1, Ordering::SeqCst);
     clear_id();
 }
@@ -80,6 +86,8 @@ pub fn start_query() {
 /// The SUIRON_STOP_QUERY is checked in count_rules(), in knowledgebase.rs.
 /// Setting it `true` effectively stops the search for a solution.
 pub fn stop_query() {
+    #[cfg(suiron_verif)]
+    crate::verif_hooks::emit(crate::verif_hooks::Event::StopQuery);
     let epoch = QUERY_EPOCH.load(Ordering::SeqCst);
     SUIRON_STOP_QUERY.fetch_max(epoch, Ordering::SeqCst);
 }
@@ -90,6 +98,8 @@ pub fn stop_query() {
 /// # Return
 /// * true/false
 pub fn query_stopped() -> bool {
+    #[cfg(suiron_verif)]
+    crate::verif_hooks::emit(crate::verif_hooks::Event::QueryStopped);
     SUIRON_STOP_QUERY.load(Ordering::SeqCst) ==
         QUERY_EPOCH.load(Ordering::SeqCst)
 }
